@@ -467,15 +467,31 @@ def full_disk_checks(ctx):
                     cases.append([5, a, [1, pre] if pre or rng.chance(1, 2) else [0], room, rng.range(1, len(recs) - 1), recs])
     lines = [vc.show(c) for c in cases]
     res = vc.run_lines([ctx["vh"]], lines, timeout_per_batch=300)
+    mres = vc.run_lines([ctx["drv"]], lines, timeout_per_batch=300, crash_marker="xmodelcrash")
     bad = []
     failed_calls = 0
-    for c, ln, r in zip(cases, lines, res):
+    modelled = 0
+    for c, ln, r, mr in zip(cases, lines, res, mres):
         try:
             v = vc.parse(r)
             oks, final = [bool(x) for x in v[0]], bytes(v[1])
         except Exception:
             bad.append(("full disk for a while: the appender did not survive (%s)" % r[:100], {"case_line": ln}))
             break
+        try:
+            mv = vc.parse(mr)
+        except Exception:
+            raise vc.Broken("corr:C04/model-run", "model failed on a full-disk history: %s" % mr[:200])
+        if mv != []:
+            # room 0: the model (BufW over a script of failing writes) says which calls fail and what the file holds
+            modelled += 1
+            if [bool(x) for x in mv[0]] != oks or bytes(mv[1]) != final:
+                bad.append(("the file could not grow while the first %d records were appended, then the disk worked again: "
+                            "calls %r / file %d bytes, model %r / %d bytes" % (
+                                c[4], ["Ok" if x else "Err" for x in oks], len(final),
+                                ["Ok" if x else "Err" for x in mv[0]], len(bytes(mv[1]))),
+                            {"case_line": ln, "impl_file": vc.jsonable(final), "model_file": vc.jsonable(bytes(mv[1]))}))
+                break
         failed_calls += sum(1 for x in oks if not x)
         pre = bytes(c[2][1]) if c[2][0] == 1 else b""
         d = full_disk_oracle(c[1], pre, oks, final, [[bytes(x) for x in rec] for rec in c[5]])
@@ -487,4 +503,5 @@ def full_disk_checks(ctx):
             break
     ctx.setdefault("xcheck", {})["full_disk_histories"] = len(cases)
     ctx["xcheck"]["full_disk_failed_calls"] = failed_calls
+    ctx["xcheck"]["full_disk_histories_run_on_the_model"] = modelled
     return bad
